@@ -11,7 +11,10 @@ package main
 // A disagreement between the port and the extracted model shows up as a disagreement of one of
 // them with the implementation.
 
-import "sort"
+import (
+	"fmt"
+	"sort"
+)
 
 type pcell struct {
 	age  int
@@ -27,6 +30,20 @@ type pstate struct {
 }
 
 type portPanic struct{ what string }
+
+// experiment (tests only): Heuristic 2 compares only with the entries of the recorded path that belong to
+// the recorded leaf (no stale entries of older leaves)
+var exactGuard bool
+var staleMatches int
+
+// statistics of the last portSearch call (tests only)
+var lastMinSlack int
+
+// trace of cut-offs inside splitBin (tests only)
+var traceSplit func(string)
+
+// positions processed by the last expandValue that was cut off, beyond the first (tests only)
+var lastCutDepth int
 
 func ppanic(s string) { panic(portPanic{s}) }
 
@@ -92,10 +109,12 @@ func copyInto(dst, src []int) []int {
 }
 
 type port struct {
-	adj   [][]bool
-	n, m  int
-	steps int
-	cov   map[string]bool // which branches of the search this run went through (harness statistics)
+	adj      [][]bool
+	n, m     int
+	steps    int
+	cov      map[string]bool // which branches of the search this run went through (harness statistics)
+	minSlack int             // least cap(currentBest) - len(op.value) at the capacity check of expandValue after a cut-off inside splitBin
+	dirty    bool            // a cut-off inside splitBin has happened in the jLoop being executed
 }
 
 func (p *port) hit(s string) {
@@ -137,7 +156,11 @@ func (p *port) expandValue(cs []pcell, cb, fl, value []int, spl int) (int, []int
 			if p.m < len(value) {
 				ppanic("currentBest[:len(value)]")
 			}
+			if sl := p.m - len(value); p.dirty && sl < p.minSlack {
+				p.minSlack = sl
+			}
 			if cmpList(value, firstn(len(value), cb)) == -1 && cmpList(value, firstn(len(value), fl)) != 0 {
+				lastCutDepth = j - spl
 				return 1, value, spl
 			}
 		}
@@ -165,7 +188,13 @@ func (p *port) splitBin(cb, fl []int, ps pstate, i int) (bool, pstate) {
 	if b == ps.spl {
 		st, v, s := p.expandValue(cs, cb, fl, ps.value, ps.spl)
 		if st == 1 {
+			if traceSplit != nil {
+				traceSplit(fmt.Sprintf("cut-off in splitBin: bin %d of size %d, element %d, value before %v after %v (m=%d), cut %d positions later, best %v", b, len(c.v), x, ps.value, v, p.m, lastCutDepth, cb))
+			}
 			p.hit("cutoff-in-splitBin")
+			if lastCutDepth > 0 {
+				p.hit("late-cutoff-in-splitBin")
+			}
 			return true, pstate{cs, age, v, ps.spl}
 		}
 		return false, pstate{cs, age, v, s}
@@ -375,6 +404,7 @@ type sstate struct {
 	flOrb                     []int
 	gens                      [][]int
 	skip                      bool
+	cbLen, flLen              int // lengths of the paths of the recorded leaves (experiment)
 }
 
 func newDS(n int) []int {
@@ -441,6 +471,7 @@ func (p *port) leafStep(st *sstate) {
 		}
 		st.cb = copyInto(cb[:p.m], ps.value)
 		st.cbPath = copyInto(st.cbPath, st.path)
+		st.cbLen = len(st.path)
 		st.cbPerm = copyInto(st.cbPerm, order)
 		inv := append([]int(nil), st.cbInv...)
 		for i, v := range order {
@@ -454,6 +485,7 @@ func (p *port) leafStep(st *sstate) {
 		if st.count == 1 {
 			st.fl = copyInto(st.fl, ps.value)
 			st.flPath = copyInto(st.flPath, st.path)
+			st.flLen = len(st.path)
 			st.flInv = copyInto(st.flInv, st.cbInv)
 			st.flOrb = copyInto(st.flOrb, st.cbOrb)
 		}
@@ -494,8 +526,14 @@ func (p *port) undo(st *sstate) {
 	}
 }
 
-func (p *port) h2(count int, lpath, path []int, ds []int, order []int, pos, j, v int) bool {
+func (p *port) h2(count int, lpath, path []int, ds []int, order []int, pos, j, v int, llen int) bool {
 	if count > 0 && hasPrefix(lpath, path[:len(path)-1]) {
+		if len(path)-1 > llen {
+			staleMatches++
+			if exactGuard {
+				return false
+			}
+		}
 		if pos < j {
 			ppanic("order[pos-j:pos]")
 		}
@@ -522,12 +560,12 @@ func (p *port) jloop(top int, st *sstate) bool {
 			ppanic("order[pos]")
 		}
 		v := order[pos]
-		if p.h2(st.count, st.flPath, st.path, st.flOrb, order, pos, j, v) {
+		if p.h2(st.count, st.flPath, st.path, st.flOrb, order, pos, j, v, st.flLen) {
 			p.hit("h2-first")
 			st.skip = true
 			continue
 		}
-		if p.h2(st.count, st.cbPath, st.path, st.cbOrb, order, pos, j, v) {
+		if p.h2(st.count, st.cbPath, st.path, st.cbOrb, order, pos, j, v, st.cbLen) {
 			p.hit("h2-best")
 			st.skip = true
 			continue
@@ -539,11 +577,17 @@ func (p *port) jloop(top int, st *sstate) bool {
 		if worse {
 			if j > 0 {
 				p.hit("sibling-after-cutoff")
+				if lastCutDepth > 0 && !p.dirty {
+					p.hit("sibling-after-late-cutoff")
+				}
 			}
+			p.dirty = true
 			continue
 		}
+		p.dirty = false
 		return true
 	}
+	p.dirty = false
 	return false
 }
 
@@ -626,7 +670,8 @@ func portSearchCov(adj [][]bool, cls [][]int, fuel int, cov map[string]bool) (pe
 		}
 		return perm, orb, gens, 0, "ok"
 	}
-	p := &port{adj: adj, n: n, m: m, cov: cov}
+	p := &port{adj: adj, n: n, m: m, cov: cov, minSlack: m}
+	defer func() { lastMinSlack = p.minSlack }()
 	zeros := func(k int) []int { return make([]int, k) }
 	fl0 := zeros(m)
 	_, v, s := p.expandValue(cells, nil, fl0, nil, 0)
